@@ -12,6 +12,7 @@ Nothing in here knows what the right answer is: the independent Fisher matrices 
 import numpy as np
 
 _JAX = None
+X64 = True      # False in the float32 worker: jax's DEFAULT configuration (no x64), the library's default precision
 
 
 def jx():
@@ -21,9 +22,42 @@ def jx():
         # tiny programs, many of them: compile time dominates; cheap compilation, same IEEE arithmetic
         os.environ.setdefault("XLA_FLAGS", "--xla_backend_optimization_level=0 --xla_llvm_disable_expensive_passes=true")
         import jax
-        jax.config.update("jax_enable_x64", True)
+        jax.config.update("jax_enable_x64", bool(X64))
+        try:
+            # persistent compilation cache: the check is deterministic given VERIF_SEED, a repeated run of the same seed
+            # against the same library source finds every program compiled (keys = HLO text + jax/XLA version + flags)
+            d = cache_dir()
+            if d != "off":
+                os.makedirs(d, exist_ok=True)
+                jax.config.update("jax_compilation_cache_dir", d)
+                jax.config.update("jax_persistent_cache_min_compile_time_secs", 0.3)
+                jax.config.update("jax_persistent_cache_min_entry_size_bytes", 0)
+        except Exception:
+            pass
         _JAX = jax
     return _JAX
+
+
+def cache_dir():
+    import os
+    import tempfile
+    return os.environ.get("C12_JAX_CACHE") or os.path.join(os.environ.get("TMPDIR") or tempfile.gettempdir(), "c12_jax_cache")
+
+
+def prune_cache(max_entries=40000):
+    """called by the parent before the workers start: the cache is an accelerator only, bound its size"""
+    import os
+    import shutil
+    d = cache_dir()
+    try:
+        if d != "off" and os.path.isdir(d) and len(os.listdir(d)) > max_entries:
+            shutil.rmtree(d, ignore_errors=True)
+    except OSError:
+        pass
+
+
+def rdt():
+    return jx().numpy.float64 if X64 else jx().numpy.float32
 
 
 def jft():
@@ -112,7 +146,7 @@ def realflat(tree):
             parts.append(jnp.real(l).ravel())
             parts.append(jnp.imag(l).ravel())
         else:
-            parts.append(l.ravel().astype(float))
+            parts.append(l.ravel().astype(rdt()))
     if not parts:
         return jnp.zeros((0,))
     return jnp.concatenate(parts)
@@ -141,7 +175,7 @@ def dense_lin(fn, specs, treedef):
         return realflat(fn(unflat_like(specs, treedef, v)))
     if n == 0:
         return np.zeros((0, 0))
-    return np.asarray(jax.vmap(g)(jnp.eye(n))).T
+    return np.asarray(jax.vmap(g)(jnp.eye(n, dtype=rdt()))).T
 
 
 def dense_jac(fn, specs, treedef, x):
@@ -150,7 +184,7 @@ def dense_jac(fn, specs, treedef, x):
 
     def g(v):
         return realflat(fn(unflat_like(specs, treedef, v)))
-    return np.asarray(jax.jacfwd(g)(jx().numpy.asarray(x, dtype=float)))
+    return np.asarray(jax.jacfwd(g)(jx().numpy.asarray(x, dtype=rdt())))
 
 
 # ---------------------------------------------------------------------------------------------------
@@ -216,6 +250,13 @@ def _diag_tree(term, key):
     data (the library's non-callable branch), or -- par["callable"] or a lone std (the library cannot derive the
     covariance from a non-callable std) -- a harness closure multiplying with it"""
     par = term["par"]
+    if par.get("herm") is not None:
+        # dense complex HERMITIAN positive definite operators (callables): std_inv = H, cov_inv = H H
+        H = np.array([[complex(*v) for v in r] for r in par["herm"]])
+        if not any(l.get("cplx") for l in term["tree"]["leaves"]):
+            H = H.real                                   # real data: real symmetric positive definite
+        Hm = jx().numpy.asarray(H if key == "std" else H @ H)
+        return lambda x: (Hm @ x.reshape(-1)).reshape(x.shape)
     vals = par.get(key)
     if vals is None:
         return None
@@ -235,7 +276,7 @@ def build_data(term):
     t = term["tree"]
     k = term["kind"]
     if k in ("poisson", "categorical"):
-        return tree_from_flat(t, np.asarray(term["data"], dtype=float), dtype=jnp.int64)
+        return tree_from_flat(t, np.asarray(term["data"], dtype=float), dtype=jnp.int64 if X64 else jnp.int32)
     return tree_from_flat(t, np.asarray(term["data"], dtype=float))
 
 
@@ -265,7 +306,7 @@ def defaults_of(base):
 def build_lh(term, data=None):
     """the REAL likelihood object for one term (`data` overrides the case's data, possibly traced)"""
     lh = _build_lh(term, data)
-    return defaults_of(lh) if term.get("defaults") else lh
+    return defaults_of(lh) if term.get("defaults") is True else lh
 
 
 def _build_lh(term, data=None):
@@ -307,7 +348,9 @@ def _build_lh(term, data=None):
 # forward models (harness code, NOT library code): y = act(A x + b) in the real coordinates of the primal space
 # ---------------------------------------------------------------------------------------------------
 def latent_spec(lat):
-    return dict(wrap=lat["wrap"], leaves=[dict(shape=[n]) for n in lat["sizes"]])
+    cp = lat.get("cplx") or [False] * len(lat["sizes"])
+    return dict(wrap=lat["wrap"], leaves=[dict(shape=[n], cplx=True) if c else dict(shape=[n])
+                                          for n, c in zip(lat["sizes"], cp)])
 
 
 def _act(name, z, shape):
@@ -335,7 +378,7 @@ def forward_flat(term, xflat, skip_pre=False):
     A = jnp.asarray(np.asarray(m["A"], dtype=float)).reshape(len(m["b"]), -1)
     if m.get("pre") is not None and not skip_pre:
         xflat = jnp.asarray(np.asarray(m["pre"], dtype=float)) @ xflat
-    z = A @ xflat + jnp.asarray(np.asarray(m["b"], dtype=float))
+    z = A @ xflat + jnp.asarray(np.asarray(m["b"], dtype=float))   # (x64 off: jnp.asarray downcasts to float32)
     out, off = [], 0
     ps = primal_spec(term)
     for l, a in zip(spec_leaves(ps), m["acts"]):
@@ -350,8 +393,80 @@ def forward_flat(term, xflat, skip_pre=False):
     return jnp.concatenate(out)
 
 
+def build_from_leaves(spec, leaves):
+    if spec["wrap"] == "pair":
+        n1 = len(spec["first"]["leaves"])
+        a = wrap_leaves(spec["first"]["wrap"], leaves[:n1])
+        b = wrap_leaves(spec["second"]["wrap"], leaves[n1:])
+        return jft().Vector((a, b)) if spec.get("outer") == "vector" else (a, b)
+    return wrap_leaves(spec["wrap"], leaves)
+
+
+def _cact(name, w, shape):
+    """activations of the complex forward models: holomorphic (complex primal leaves) or real-valued (real leaves)"""
+    jnp = jx().numpy
+    if name == "id":
+        return w
+    if name == "cexp":
+        return jnp.exp(w / 2)
+    if name == "csq":
+        return w + w * w / 4
+    if name == "csin":
+        return jnp.sin(w)
+    if name == "conj":
+        return jnp.conj(w)                       # anti-holomorphic: R-linear only
+    if name == "re":
+        return jnp.real(w)
+    if name == "im":
+        return jnp.imag(w)
+    if name == "abs2p1":
+        return 1.0 + jnp.real(w * jnp.conj(w))
+    if name == "expre":
+        return jnp.exp(jnp.real(w) / 2)
+    if name == "spd":
+        return _act("spd", jnp.real(w), shape)
+    raise ValueError(name)
+
+
+def cforward_tree_fn(term, lat):
+    """complex forward model handed to `Likelihood.amend`: works on the complex leaves directly (no detour through
+    real coordinates): u = concat(latent leaves) -> complex linear stage -> gather + offset -> activation per leaf"""
+    ps = primal_spec(term)
+    m = term["model"]
+    leaves_spec = spec_leaves(ps)
+
+    def f(x):
+        jax = jx()
+        jnp = jax.numpy
+        u = jnp.concatenate([jnp.asarray(l).ravel() for l in jax.tree_util.tree_leaves(x)])
+        ct = m["ctype"]
+        if ct in ("iscal", "cscal"):
+            w = complex(*m["g"]) * u
+        elif ct == "cdiag":
+            w = jnp.asarray(np.array([complex(*v) for v in m["c"]])) * u
+        elif ct == "fft":
+            w = (jnp.fft.ifft if m.get("inverse") else jnp.fft.fft)(u, norm=m.get("norm"))
+        elif ct == "cdense":
+            w = jnp.asarray(np.array([[complex(*v) for v in r] for r in m["C"]])) @ u
+        else:
+            raise ValueError(ct)
+        if ct != "cdense":
+            w = w[np.asarray(m["sel"], dtype=int)]
+        w = w + jnp.asarray(np.array([complex(*v) for v in m["b"]]))
+        out, off = [], 0
+        for l, a in zip(leaves_spec, m["acts"]):
+            n = int(np.prod(l["shape"], dtype=int))
+            v = _cact(a, w[off:off + n], l["shape"])
+            out.append(v.reshape(tuple(l["shape"])))
+            off += n
+        return build_from_leaves(ps, out)
+    return f
+
+
 def forward_tree_fn(term, lat, skip_pre=False):
     """the callable handed to `Likelihood.amend`: latent pytree -> primal pytree of the likelihood"""
+    if term["model"].get("ctype") is not None:
+        return cforward_tree_fn(term, lat)
     ps = primal_spec(term)
 
     def f(x):
@@ -393,6 +508,7 @@ def assemble(case, bases, lsm_override=True):
     terms = case["terms"]
     lat = case.get("latent")
     b = Built()
+    b.terms = terms
     if lat is None:
         assert len(terms) == 1
         ps = primal_spec(terms[0])
@@ -401,18 +517,23 @@ def assemble(case, bases, lsm_override=True):
         lspec = latent_spec(lat)
         x = tree_from_flat(lspec, np.asarray(case["x"], dtype=float))
         lhs = []
+        b.xfull, b.bases = x, bases
+        b.fwd = [forward_tree_fn(term, lat) for term in terms]
         for term, base in zip(terms, bases):
             if term["model"].get("pre") is not None:
                 # LikelihoodWithModel.amend -> _ChainModel
                 # (the chained forward model is a LazyModel without domain: hand the domain to `amend`, otherwise a
                 #  later LikelihoodSum cannot evaluate `.domain` of the summand)
                 dom = jax.tree_util.tree_map(j.ShapeWithDtype.from_leave, x)
-                lhs.append(base.amend(forward_tree_fn(term, lat, skip_pre=True)).amend(pre_tree_fn(term, lat), domain=dom))
+                a = base.amend(forward_tree_fn(term, lat, skip_pre=True)).amend(pre_tree_fn(term, lat), domain=dom)
+                lhs.append(defaults_of(a) if term.get("defaults") == "outer" else a)
                 continue
             f = forward_tree_fn(term, lat)
             if term["model"].get("lazy"):
                 f = j.Model(f, domain=jax.tree_util.tree_map(j.ShapeWithDtype.from_leave, x))
-            lhs.append(base.amend(f))
+            a = base.amend(f)
+            # "outer": a user-style likelihood that only defines energy and transformation of the WHOLE composition
+            lhs.append(defaults_of(a) if term.get("defaults") == "outer" else a)
         lh = lhs[0]
         if case.get("sumctor") and len(lhs) > 1:
             from nifty.re.likelihood import LikelihoodSum
@@ -467,7 +588,7 @@ def lsm_leafspecs_of_term(term):
 def _lin(fn, specs, treedef):
     jax = jx()
     n = sum(leaf_sizes(specs))
-    return jax.vmap(lambda v: realflat(fn(unflat_like(specs, treedef, v))))(jax.numpy.eye(n)).T
+    return jax.vmap(lambda v: realflat(fn(unflat_like(specs, treedef, v))))(jax.numpy.eye(n, dtype=rdt())).T
 
 
 def probe(b, want=("M", "L", "R", "T")):
@@ -476,10 +597,34 @@ def probe(b, want=("M", "L", "R", "T")):
     jax = jx()
     lh, p = b.lh, b.p
 
-    def everything(x0):
+    fwd = getattr(b, "fwd", None) if "C" in want else None
+    if fwd is not None:
+        xf_specs, xf_def = spec_of_swd(b.xfull)
+        xf0 = jax.numpy.asarray(np.asarray(realflat(b.xfull), dtype=float))
+    else:
+        xf0 = jax.numpy.zeros((0,))
+
+    def everything(x0, xf0):
         # the point is an ARGUMENT of the compiled program (no constant folding of the whole computation)
         p = unflat_like(b.dom_specs, b.dom_def, x0)
         out = {}
+        if fwd is not None:
+            # per term: Jacobian of the forward model by jacfwd AND jacrev (real coordinates of the FULL latent
+            # tree), the base likelihood's own dense metric / left square root at the forward value
+            for k, (f, base, term) in enumerate(zip(fwd, b.bases, b.terms)):
+                g = lambda v, f=f: realflat(f(unflat_like(xf_specs, xf_def, v)))
+                out[f"Jf{k}"] = jax.jacfwd(g)(xf0)
+                out[f"Jr{k}"] = jax.jacrev(g)(xf0)
+                y = f(unflat_like(xf_specs, xf_def, xf0))
+                ys, yd = spec_of_swd(y)
+                out[f"Mk{k}"] = _lin(lambda t, y=y, base=base: base.metric(y, t), ys, yd)
+                ls, ld = spec_of_swd(base.lsm_tangents_shape)
+                if term["kind"] == "categorical":
+                    ls = [dict(shape=list(s_["shape"])) for s_ in spec_leaves(primal_spec(term))]
+                out[f"Lk{k}"] = _lin(lambda t, y=y, base=base: base.left_sqrt_metric(y, t), ls, ld)
+        if "H" in want:
+            e = lambda v: lh.energy(unflat_like(b.dom_specs, b.dom_def, v))
+            out["H"] = jax.hessian(e)(x0)
         if "M" in want:
             out["M"] = _lin(lambda t: lh.metric(p, t), b.dom_specs, b.dom_def)
         if "L" in want:
@@ -492,7 +637,7 @@ def probe(b, want=("M", "L", "R", "T")):
             out["Tval"] = g(x0)
         return out
     x0 = jax.numpy.asarray(np.asarray(realflat(p), dtype=float))
-    return {k: np.asarray(v) for k, v in jax.jit(everything)(x0).items()}
+    return {k: np.asarray(v, dtype=float) for k, v in jax.jit(everything)(x0, xf0).items()}
 
 
 def transformation_jacobians(case, bases, variants):
